@@ -794,3 +794,107 @@ func (e *Entry) emitEW(w *bufio.Writer, vsegs string, er EncResult) {
 	}
 	fmt.Fprintf(w, "EW %d %d %s %s %s\n", e.Pi, e.Mi, vsegs, segsStr(er.Wire), ps)
 }
+
+// ---- insertion sites at every nesting depth ----
+
+// Site is one element boundary inside a nested model of an encoding: Make(ins) returns the whole top-level encoding with
+// ins inserted at that boundary and the length of every enclosing TLV rewritten.
+type Site struct {
+	E     *Entry // the (nested) model the boundary belongs to: the inserted type number must be unknown to it
+	Depth int
+	Pos   int // boundary index among the elements of that nested value
+	N     int // number of elements of that nested value
+	Path  string
+	Make  func(ins []byte) []byte
+}
+
+// splitTLV returns type number, header length and value of the TLV at the start of b.
+func splitTLV(b []byte) (typ uint64, hdr int, val []byte, ok bool) {
+	r := enc.NewBufferReader(b)
+	t, err := enc.ReadTLNum(r)
+	if err != nil {
+		return 0, 0, nil, false
+	}
+	l, err := enc.ReadTLNum(r)
+	if err != nil || uint64(l) > uint64(len(b)-r.Pos()) {
+		return 0, 0, nil, false
+	}
+	return uint64(t), r.Pos(), b[r.Pos() : r.Pos()+int(l)], true
+}
+
+// NestedSites lists every element boundary of every nested model value (struct fields, sequence-of-struct elements,
+// map-of-struct values), at every depth >= 1, of the encoding b of model e.
+func (e *Entry) NestedSites(b []byte) []Site {
+	var out []Site
+	e.sites(b, 0, "", func(x []byte) []byte { return x }, &out)
+	return out
+}
+
+func (e *Entry) sites(b []byte, depth int, path string, wrap func([]byte) []byte, out *[]Site) {
+	els := e.Elements(b)
+	if els == nil || depth > 8 {
+		return
+	}
+	if depth > 0 {
+		for i := 0; i <= len(els); i++ {
+			i := i
+			*out = append(*out, Site{E: e, Depth: depth, Pos: i, N: len(els), Path: path, Make: func(ins []byte) []byte {
+				parts := append([][]byte{}, els[:i]...)
+				parts = append(parts, ins)
+				parts = append(parts, els[i:]...)
+				return wrap(join(parts))
+			}})
+		}
+	}
+	for j, el := range els {
+		j := j
+		typ, _, val, ok := splitTLV(el)
+		if !ok {
+			continue
+		}
+		var f *Field
+		for k := range e.M.Fields {
+			if e.M.Fields[k].Typ == typ && typ != 0 {
+				f = &e.M.Fields[k]
+				break
+			}
+		}
+		if f == nil {
+			continue
+		}
+		rebuild := func(newEl []byte) []byte {
+			parts := append([][]byte{}, els[:j]...)
+			parts = append(parts, newEl)
+			parts = append(parts, els[j+1:]...)
+			return wrap(join(parts))
+		}
+		var inner *Entry
+		var mk func(x []byte) []byte
+		var innerBytes []byte
+		switch {
+		case f.Kind == "struct":
+			inner, innerBytes = e.modelByName(f.Struct), val
+			mk = func(x []byte) []byte { return rebuild(tlvBytes(typ, x)) }
+		case f.Kind == "sequence" && f.Sub != nil && f.Sub.Kind == "struct":
+			inner, innerBytes = e.modelByName(f.Sub.Struct), val
+			mk = func(x []byte) []byte { return rebuild(tlvBytes(typ, x)) }
+		case f.Kind == "map" && f.Val != nil && f.Val.Kind == "struct":
+			// element = key TLV followed by value TLV
+			_, h, kv, ok1 := splitTLV(el)
+			if !ok1 {
+				continue
+			}
+			keyTLV := el[:h+len(kv)]
+			vt, _, vv, ok2 := splitTLV(el[len(keyTLV):])
+			if !ok2 {
+				continue
+			}
+			inner, innerBytes = e.modelByName(f.Val.Struct), vv
+			mk = func(x []byte) []byte { return rebuild(append(append([]byte{}, keyTLV...), tlvBytes(vt, x)...)) }
+		}
+		if inner == nil {
+			continue
+		}
+		inner.sites(innerBytes, depth+1, fmt.Sprintf("%s/%s[%d]", path, f.Name, j), mk, out)
+	}
+}
